@@ -1,7 +1,8 @@
 (* C19 driver: argv[1] = cases file, argv[2] = "-" , argv[3] = variant (repaired | defective).
    One output line per case line; formats are documented next to each op and mirrored by the Go
    harnesses harness/C19/zz_verif_c19_*_test.go. *)
-let variant = if Array.length Sys.argv > 3 && Sys.argv.(3) = "defective" then Defective else Repaired
+let variant = if Array.length Sys.argv > 3 && Sys.argv.(3) = "defective" then Defective
+  else if Array.length Sys.argv > 3 && Sys.argv.(3) = "head" then Head else Repaired
 let hx = hex_of_bytes
 let bx = bytes_of_hex
 let ni s = n_of_int (int_of_string s)
@@ -112,7 +113,7 @@ let run line =
   | ["ip6"; s; d; sp; dp; p] ->
     res_frame sum6 (build_ipv6_udp_frame (ip_of s) (ip_of d) (ni sp) (ni dp) (bx p))
   | ["wrap"; s; d; p] ->
-    res_bytes (fun f -> hx f ^ " " ^ sum4 f) (wrap_ip_udp (bx p) (ip_of s) (ip_of d))
+    res_bytes (fun f -> if f = [] then "nil" else hx f ^ " " ^ sum4 f) (wrap_ip_udp variant (bx p) (ip_of s) (ip_of d))
   | ["o82build"; fl; un; _; _; _; _; _; _; ec; er] ->
     (match build_option82 (fl = "1") (un = "1") (bx ec) (bx er) with
      | Ok b -> "ok " ^ hx b
@@ -232,9 +233,9 @@ let run line =
                   (if List.length b > 3 then int_of_n (List.nth b 3) else 0))
       (relay_forward4 variant (bx p) (ip_of gi) (bx o) pol)
   | ["relayreply4"; gi; p] ->
-    res_bytes (fun f -> hx f ^ " " ^ sum4 f ^ " gp=" ^ gp_codes (from f 28)) (relay_reply4 variant (bx p) (ip_of gi))
+    res_bytes (fun f -> if f = [] then "nil" else hx f ^ " " ^ sum4 f ^ " gp=" ^ gp_codes (from f 28)) (relay_reply4 variant (bx p) (ip_of gi))
   | ["proxyreply4"; gi; lease; p] ->
-    res_bytes (fun f ->
+    res_bytes (fun f -> if f = [] then "nil" else
         let b = from f 28 in
         let g c = match get_option4 b (n_of_int c) with Ok (Some x) -> hx x | Ok None -> "none" | _ -> "crash" in
         Printf.sprintf "%s %s gp=%s get=%s,%s,%s,%s" (hx f) (sum4 f) (gp_codes b) (g 54) (g 51) (g 58) (g 59))
